@@ -211,6 +211,21 @@ class CAST(Pat):
         return 'CAST(%r,%s)' % (self.a, self.ty)
 
 
+class CLAMP(Pat):
+    """`x.clamp(lo, hi)` or the equivalent `x.max(lo).min(hi)` / `x.min(hi).max(lo)`"""
+
+    def __init__(self, x, lo, hi):
+        self.x, self.lo, self.hi = x, lo, hi
+
+    def m(self, ctx, e):
+        return (M('clamp', self.x, self.lo, self.hi).m(ctx, e) or
+                M('min', M('max', self.x, self.lo), self.hi).m(ctx, e) or
+                M('max', M('min', self.x, self.hi), self.lo).m(ctx, e))
+
+    def __repr__(self):
+        return 'CLAMP(%r,%r,%r)' % (self.x, self.lo, self.hi)
+
+
 class TRY(Pat):
     """`p?`"""
 
